@@ -269,7 +269,8 @@ def _event_fields(ctx, p, qn):
 
 def s5_history(ctx):
     M = ctx.M
-    ws = writers_of_attr(M, 'history')
+    # (self.history of a class outside Portfolio's family - a price history kept by a signal buffer - is another field that happens to share the name)
+    ws = writers_of_attr(M, 'history', owner='Portfolio')
     ctx.floor('C01.S5', 'writers of Portfolio.history', len(ws), 1)
     for w in ws:
         how = w.how
